@@ -2,19 +2,20 @@
 """Developer tool: run hlint property checks against seeded changes.
 usage: seedcheck.py [name ...]   (default: all under /verif/seeded)  [--props C01,C02]"""
 import subprocess, os, shutil, tempfile, sys, json, glob
-args=[a for a in sys.argv[1:] if not a.startswith('--')]
+args=[a for a in sys.argv[1:] if not a.startswith('-')]
 props=None
 for a in sys.argv[1:]:
     if a.startswith('--props='): props=a.split('=')[1].split(',')
 names=args or sorted(os.path.basename(d) for d in glob.glob('/verif/seeded/*'))
 ALL=['C%02d'%i for i in range(1,18)]
-tot=0; det=0
-for n in names:
+def one(n):
+    import io
+    out=io.StringIO()
     d=tempfile.mkdtemp(prefix='/tmp/seedchk.')
     subprocess.run(['rsync','-a','--exclude','.git','/repo/',d+'/'],check=True)
     p=subprocess.run('patch -p1 -s --no-backup-if-mismatch -i /verif/seeded/%s/patch.diff'%n,shell=True,cwd=d,capture_output=True,text=True)
     if p.returncode!=0:
-        print(n,'PATCH DOES NOT APPLY',p.stdout[:200]); shutil.rmtree(d); continue
+        shutil.rmtree(d); return (n+' PATCH DOES NOT APPLY\n',0,0)
     meta=json.load(open('/verif/seeded/%s/meta.json'%n))
     hits={}
     vd=tempfile.mkdtemp(prefix='/tmp/seedverif.'); os.mkdir(vd+'/evidence'); shutil.copy('/verif/known_findings.json',vd)
@@ -25,11 +26,18 @@ for n in names:
         elif l.startswith(('VIOLATED','UNDECIDED')) and (not props or cur in props): hits.setdefault(cur,[]).append(l)
     shutil.rmtree(vd)
     shutil.rmtree(d)
-    tot+=1
     own=meta['property'] in hits
-    if hits: det+=1
-    print('%s (breaks %s): %s%s'%(n,meta['property'],'DETECTED by '+','.join(sorted(hits)) if hits else 'MISSED','' if own or not hits else '   [not by its own property]'))
+    out.write('%s (breaks %s): %s%s\n'%(n,meta['property'],'DETECTED by '+','.join(sorted(hits)) if hits else 'MISSED','' if own or not hits else '   [not by its own property]'))
     if '-v' in sys.argv:
         for pr,h in hits.items():
-            for l in h[:3]: print('     ',l[:260])
-print('detected %d of %d'%(det,tot))
+            for l in h[:3]: out.write('      '+l[:260]+'\n')
+    return (out.getvalue(),1,1 if hits else 0)
+
+if __name__=='__main__':
+    from multiprocessing import Pool
+    names=[n for n in names if os.path.isdir('/verif/seeded/'+n)]
+    tot=det=0
+    with Pool(8) as pool:
+        for txt,t,dd in pool.imap(one,names):
+            sys.stdout.write(txt); sys.stdout.flush(); tot+=t; det+=dd
+    print('detected %d of %d'%(det,tot))
